@@ -19,6 +19,10 @@ impl Poll {
     { self.poll(timeout) }
     /// the OS poller behind this Poll (ghost accessor for the pub(crate) field)
     pub closed spec fn pl(&self) -> Poller { *self.poller }
+    /// (for code of other modules that reads the pub(crate) field directly)
+    pub(crate) proof fn lemma_pl(&self)
+        ensures self.pl() == *self.poller,
+    {}
 }
 //@ endregion
 //@ open src/sys.rs / impl Poll
@@ -36,6 +40,8 @@ impl Poll {
 //@ enditem
 //@ region notifier_specs props=C11
 impl Notifier {
+    /// the OS poller the handle notifies
+    pub closed spec fn pl(&self) -> Poller { *self.0 }
     pub closed spec fn w_notified(&self) -> bool { self.0.w_notify_called() }
 }
 //@ endregion
